@@ -51,6 +51,7 @@ type vsimTask struct {
 	isCB      bool // timer callback
 	holdDrawn bool
 	hold      int // scheduling steps during which the driver passes this task over (timer callbacks)
+	prio      int // priority schedule (sched_mode 1): the enabled task with the highest priority runs; 0 = not drawn yet
 	steps     int
 	wokeStep  int // step number at which the task last resumed from a blocking operation / started
 }
@@ -86,6 +87,14 @@ type vsimSim struct {
 	nDeadlines int
 	timerDue   map[*time.Timer]time.Time // pending expiries of the package's timers (as far as known)
 	holdPPM  uint32 // probability (per million) that a starting timer callback is held back for a few steps
+	// priority schedule (PCT, Burckhardt et al. 2010): every task gets a seeded priority when the driver first sees
+	// it, the highest-priority enabled task runs, and at a few seeded step numbers the task that is about to run
+	// drops below everything else. One run thus starves some tasks for long stretches - "everybody else runs to
+	// completion whenever the read loop lets go of the lock" - which the random walk practically never does.
+	prioMode    bool
+	prioChange  []int // step numbers of the change points, ascending
+	prioChanged int
+	netPrio     int
 
 	lastLib    string
 	cbLog      []vsimCBRec // every timer callback with its (virtual) firing time
@@ -220,7 +229,17 @@ func (t *vsimTape) chance(ppm uint32) bool {
 			g = 1
 		}
 	}
-	return t.put(g) != 0
+	return t.putIf(g, ppm > 0) != 0
+}
+
+// putIf is put for a decision the configuration may rule out (rate 0): such a decision stays ruled out whatever a
+// replayed - in particular a mutated - tape says, so that every mutated run is a run some seed could have produced.
+func (t *vsimTape) putIf(v uint32, allowed bool) uint32 {
+	if !allowed {
+		t.rec = append(t.rec, 0)
+		return 0
+	}
+	return t.put(v)
 }
 
 // biased draws from [0,n) but returns 0 with probability 1-ppm/1e6.
@@ -235,7 +254,7 @@ func (t *vsimTape) biased(n int, ppm uint32) int {
 			g = 1 + uint32(t.next()%uint64(n-1))
 		}
 	}
-	return int(t.put(g) % uint32(n))
+	return int(t.putIf(g, ppm > 0) % uint32(n))
 }
 
 // ---------------------------------------------------------------- parking
